@@ -5,8 +5,9 @@
       confirm in a scratch worktree of /repo's HEAD that the change compiles, passes the existing
       suite, and that the demonstration fails with it and passes without it; then keep it as
       /verif/seeded/<id>/ (patch.diff, demo, meta.json)
-  seed.py run <id> [--tier quick] [--props C01,C02]
-      apply /verif/seeded/<id>/patch.diff to /repo, run the property's check(s), undo, report
+  seed.py run <id> [--scratch] [--tier quick] [--props C01,C02]
+      apply /verif/seeded/<id>/patch.diff to /repo (or, with --scratch, to a scratch worktree of
+      /repo's head that is removed afterwards), run the property's check(s), undo, report
 """
 import json, os, shutil, subprocess, sys, tempfile, time
 
@@ -75,6 +76,38 @@ def verify(src, sid, pkgdir, rx):
     return 0
 
 
+def run_scratch(sid, tier, props):
+    """Like run, but on a scratch worktree of /repo's head (never touches /repo, writes no evidence)."""
+    d = os.path.join(SEEDED, sid)
+    meta = json.load(open(os.path.join(d, "meta.json")))
+    props = props or [meta.get("property", sid.split("-")[0])]
+    wt = tempfile.mkdtemp(prefix="seedrun-", dir="/tmp")
+    os.rmdir(wt)
+    rc, out = sh("git -C /repo worktree add -q --detach %s HEAD" % wt)
+    assert rc == 0, out
+    res = {}
+    try:
+        rc, out = sh("git apply %s" % os.path.join(d, "patch.diff"), cwd=wt)
+        if rc != 0:
+            print("APPLY FAILED", out)
+            return 2
+        for p in props:
+            t0 = time.time()
+            rc, out = sh("VERIF_REPO=%s VERIF_NOEVIDENCE=1 VERIF_REPLAY_DIR=%s/_replay /verif/check %s --tier %s" % (wt, wt, p, tier), cwd="/verif", timeout=7200)
+            lines = [l for l in out.splitlines() if l.startswith(("VIOLATION", "KNOWN-FINDING", "INCONCLUSIVE", "OK "))]
+            res[p] = {"rc": rc, "wall_s": round(time.time() - t0, 1), "lines": lines[:6]}
+            print(p, "rc=%d" % rc, "%.0fs" % (time.time() - t0))
+            for l in lines[:6]:
+                print("   ", l[:220])
+    finally:
+        sh("git -C /repo worktree remove --force %s" % wt)
+    meta.setdefault("detection", {})
+    for p, r in res.items():
+        meta["detection"][p + ":" + tier] = {"caught": r["rc"] == 1, "rc": r["rc"], "wall_s": r["wall_s"], "lines": r["lines"][:3], "head": sh("git -C /repo rev-parse --short HEAD")[1].strip()}
+    json.dump(meta, open(os.path.join(d, "meta.json"), "w"), indent=1)
+    return 0
+
+
 def run(sid, tier, props):
     d = os.path.join(SEEDED, sid)
     meta = json.load(open(os.path.join(d, "meta.json")))
@@ -110,12 +143,16 @@ if __name__ == "__main__":
     if sys.argv[1] == "verify":
         sys.exit(verify(*sys.argv[2:6]))
     if sys.argv[1] == "run":
-        tier, props = "quick", None
+        tier, props, scratch = "quick", None, False
         args = sys.argv[3:]
         while args:
+            if args[0] == "--scratch":
+                scratch = True
+                args = args[1:]
+                continue
             if args[0] == "--tier":
                 tier = args[1]
             elif args[0] == "--props":
                 props = args[1].split(",")
             args = args[2:]
-        sys.exit(run(sys.argv[2], tier, props))
+        sys.exit((run_scratch if scratch else run)(sys.argv[2], tier, props))
